@@ -12,6 +12,7 @@ package art
 func init() { vpRegister("hTwo", hTwo) }
 
 type treeRunner interface {
+	prep(op, spec int) func()
 	step(op, spec int, mask int)
 	final(mask int, probeSpec int)
 }
@@ -26,6 +27,23 @@ type runner[K any] struct {
 
 func newRunner[K any](h *hk[K], actor int) *runner[K] {
 	return &runner[K]{h: h, t: h.newTree(), ref: &refMap[K]{h: h}, actor: actor}
+}
+
+// prep draws the operation's key/value exactly as step does and returns the bare tree operation.
+func (r *runner[K]) prep(op, spec int) func() {
+	h := r.h
+	var k K
+	if op == opInsertC || op == opDeleteC {
+		k = h.concKey(spec)
+		op -= 3
+	} else {
+		k = h.newKey(spec)
+	}
+	if op == opInsert {
+		v := vpU64()
+		return func() { r.t.Insert(h.clone(k), v) }
+	}
+	return func() { r.t.Delete(h.clone(k)) }
 }
 
 func (r *runner[K]) step(op, spec int, mask int) {
@@ -116,6 +134,29 @@ func hTwo() {
 	b := mkRunner(vpParam(2), 2)
 	mask := vpParam(3)
 	n := vpParam(4)
+	if vpRaceNative() {
+		// native confirmation of a C16 footprint conflict: same keys (same tape order), the two trees' operation
+		// lists run in two goroutines under the race detector
+		var opsA, opsB []func()
+		for i := 0; i < n; i++ {
+			which, op, spec := vpParam(5+3*i), vpParam(5+3*i+1), vpParam(5+3*i+2)
+			if which == 0 {
+				opsA = append(opsA, a.prep(op, spec))
+			} else {
+				opsB = append(opsB, b.prep(op, spec))
+			}
+		}
+		vpRunConcurrently(func() {
+			for _, f := range opsA {
+				f()
+			}
+		}, func() {
+			for _, f := range opsB {
+				f()
+			}
+		})
+		return
+	}
 	for i := 0; i < n; i++ {
 		which, op, spec := vpParam(5+3*i), vpParam(5+3*i+1), vpParam(5+3*i+2)
 		if which == 0 {
